@@ -45,7 +45,7 @@ def describe(case, obs):
 
 def generate(rng, tier):
     cases = []
-    n = 220 if tier == "quick" else 3000
+    n = 400 if tier == "quick" else 3000
     for _ in range(n):
         k = rng.randint(1, 7)
         names = rng.sample(list(DIMS), k)
